@@ -223,8 +223,9 @@ def run(ck):
         if final != init:
             ck.violation(f'with_env_var left the variable at {final!r}, it was {init!r} before (events {ops})', dict(init=init, ops=ops, final=final), key='env-restore')
         if any(o != '7' for o in obs):
-            ck.violation(f'inside a wrapped body the variable read {obs}', dict(init=init, ops=ops), key='env-inside')
-        cq = lambda v: 'None' if v is None else f'(Some {int(v or 0)})'
+            # what the body sees is not part of the property (only the value after the call is): a mismatch with the event model is left to the Coq correspondence below
+            ck.count('decorator body read something else than the override value')
+        cq = lambda v: 'None' if v is None else f'(Some {int(v or 0) if (v or "0").isdigit() else 999})'        # anything that is not one of the integers in play is encoded as 999
         cases.append((k, f"env_case 7 {coq_list(ops)} {cq(init)} {cq(final)} {coq_list([cq(o) for o in obs])}"))
     res = ck.run_bool_cases('env', HEADER, cases, shard=500)
     bad = [k for k, v in res.items() if v is not True]
@@ -235,6 +236,7 @@ def run(ck):
     ENV = 'PYTORCH_CUDA_ALLOC_CONF'
     kernels = [('l2', {}), ('l2_high_dim', {}), ('l1', {}), ('lpq', dict(norm_p=1.5)), ('sum_power_laplace', {})]
     nconf = ck.n(14, 80)
+    inside_mismatch = []
     for i in range(nconf):
         kern, extra = kernels[i % 5]
         task = ['reg', 'class_int', 'class_onehot', 'reg2'][i % 4]
@@ -257,7 +259,8 @@ def run(ck):
         args = [conv(X), conv(y), conv(Xv), conv(yv)]
         Q = conv(xr.make_X('random', 9, d, nr))
         desc = dict(i=i, kernel=kern, task=task, tensors=as_tensor, n_threads=n_threads, soft=soft, n=n, L=L, split_method=(None if i % 3 == 0 else ['pca', 'random_pca', 'linear', 'rf_criterion', 'random_agop_on_subset', 'top_pc_agop_on_subset'][(i // 3) % 6]), seed=ck.seed)
-        init_env = [None, 'max_split_size_mb:64', ''][i % 3]          # absent / set / defined but empty (`export VAR=` in a job script)
+        # absent / set / defined but empty (`export VAR=` in a job script) / already mentioning the very option the library overrides (alone, or after another option)
+        init_env = [None, 'max_split_size_mb:64', '', 'expandable_segments:False', 'max_split_size_mb:128,expandable_segments:True'][i % 5]
         if init_env is None:
             os.environ.pop(ENV, None)
         else:
@@ -319,7 +322,9 @@ def run(ck):
         if probes:
             bad_p = [p for p in probes if (n_threads is not None and p[0] != n_threads) or p[1] != 'expandable_segments:True']
             if bad_p:
-                ck.violation(f'inside fit the thread count / env override read {bad_p[:2]} (n_threads={n_threads}) on {desc}', dict(desc), key='inside-probe')
+                # what is visible INSIDE the call is part of the protocol model (override in force, requested thread count), not of the property, which speaks of the state
+                # after the call returns: a mismatch breaks the correspondence with the model and is reported as such
+                inside_mismatch.append((desc, bad_p[:2]))
             ck.count('inside-fit probes', len(probes))
         check('predict', lambda: model.predict(Q), [Q])
         if as_tensor and i % 2 == 0:
@@ -355,3 +360,5 @@ def run(ck):
         check('get_state_dict', lambda: model.get_state_dict(), args)
         torch.set_num_threads(t0)
         os.environ.pop(ENV, None)
+    ck.obligation('correspondence: inside every real fit the probes read the override value and the requested thread count (protocol model: the override is in force between Enter and Exit)',
+                  'correspondence', not inside_mismatch, f'first mismatches: {inside_mismatch[:2]}')
